@@ -36,6 +36,11 @@ pub fn sem_jobs(thorough: bool, finish: bool) -> Vec<Job> {
             } else {
                 v.push(job(Cfg::new(fl, &[("fair", fair), ("permits", 0), ("k", 3), ("sizes", bits(&[1, 2])), ("cap", 3), ("rels", 1)]), finish, false));
             }
+            if fi == 2 {
+                // the user's last handle can be dropped while futures and releasers live on
+                let k = if thorough { 3 } else { 2 };
+                v.push(job(Cfg::new(fl, &[("fair", fair), ("permits", 1), ("k", k), ("sizes", bits(&[1, 2])), ("cap", 3), ("rels", if thorough { 2 } else { 1 }), ("handle", 1)]), finish, thorough));
+            }
         }
     }
     v
